@@ -5,6 +5,9 @@
 //	Gen/Chain.v   for every constructor method of *definition the static call
 //	              chain down to runtime.Callers and the skip value it passes,
 //	              plus shape checks of newError / newStack / DebugStack
+//	Gen/Effects.v write sites, mutator calls, package-variable accesses and the
+//	              locks held at each of them (effects.go; packages errdef, resolver,
+//	              unmarshaler)
 //
 // Standard library only (go/parser, go/ast, go/printer, go/build/constraint).
 // The translator is pattern based and trusted to report faithfully or to fail
@@ -77,11 +80,12 @@ func main() {
 	}
 	consts := genConsts(p)
 	chain := genChain(p)
+	effects := genEffects(*repo)
 	if err := os.MkdirAll(*out, 0o755); err != nil {
 		fmt.Fprintln(os.Stderr, "srcgen:", err)
 		os.Exit(1)
 	}
-	for name, text := range map[string]string{"Consts.v": consts, "Chain.v": chain} {
+	for name, text := range map[string]string{"Consts.v": consts, "Chain.v": chain, "Effects.v": effects} {
 		path := filepath.Join(*out, name)
 		old, err := os.ReadFile(path)
 		if err == nil && string(old) == text {
